@@ -14,6 +14,7 @@ only checked against the invariant.
 """
 import contextlib
 import io
+import time
 
 import numpy as np
 
@@ -51,6 +52,9 @@ IK_TARGETS = [
     ("below", (0.0, 0.0, -0.9, 0.0, 0.0, 0.0)),
     ("side", (0.8, 0.0, 0.9, 0.0, 0.0, 0.0)),
 ]
+# targets just beyond one limit each (one value on the far side of every comparison the predicates make); the
+# relative poses are solved for from the reference in Spec.edge_targets: how far beyond is EDGE[name]
+EDGE = {"legs_hi_edge": 5e-4, "legs_lo_edge": 5e-4, "tilt_edge": 2e-4, "deflection_edge": 1e-3, "above_edge": 1e-3}
 # leg-length vectors as leg_min + f * (leg_max - leg_min)
 FK_LENS = [
     ("in", (0.51, 0.63, 0.65, 0.63, 0.65, 0.73)),
@@ -127,6 +131,41 @@ def read_ref(sp):
     return sps.Ref(bl, tl, sps.rel(B, T), sp.leg_ext_min, sp.leg_ext_max, sp.joint_deflection_max, sp.plate_rotation_limit)
 
 
+def _bisect(f, lo, hi):
+    """Root of an increasing f on [lo, hi] (harness assertion if the bracket is not one)."""
+    if not (f(lo) < 0 < f(hi)):
+        raise AssertionError("C10 edge target: no sign change on the bracket (%r, %r)" % (f(lo), f(hi)))
+    for _ in range(200):
+        mid = 0.5 * (lo + hi)
+        if f(mid) < 0:
+            lo = mid
+        else:
+            hi = mid
+    return hi
+
+
+def edge_targets(ref, h):
+    """Relative poses that violate exactly one family of limits by EDGE[name] (computed from the reference alone)."""
+    B = np.eye(4)
+
+    def Tz(z):
+        return se3.T_from([0, 0, 0], [0, 0, z])
+
+    def Tx(x):
+        return se3.T_from([0, 0, 0], [x, 0, h])
+    out = {}
+    z = _bisect(lambda z: ref.lengths(B, Tz(z)).max() - (ref.leg_max + EDGE["legs_hi_edge"]), h, 3 * h)
+    out["legs_hi_edge"] = Tz(z)
+    z = _bisect(lambda z: -(ref.lengths(B, Tz(h - z)).min() - (ref.leg_min - EDGE["legs_lo_edge"])), 0.0, 0.9 * h)
+    out["legs_lo_edge"] = Tz(h - z)
+    a = float(np.arccos(ref.tilt_limit - sps.TILT_MARGIN - EDGE["tilt_edge"]))
+    out["tilt_edge"] = se3.T_from([0, a, 0], [0, 0, h])
+    x = _bisect(lambda x: ref.deflections(B, Tx(x)).max() - (ref.deflection_max + EDGE["deflection_edge"]), 0.0, 3 * h)
+    out["deflection_edge"] = Tx(x)
+    out["above_edge"] = Tz(-EDGE["above_edge"])
+    return out
+
+
 class PState:
     def __init__(self, sp, ref):
         self.sp = sp
@@ -144,22 +183,28 @@ def drift(before, after):
 class Spec:
     expand_violating = False
 
-    def __init__(self, geo, bits, seed):
+    def __init__(self, geo, bits, seed, start="fresh"):
         from basic_robotics.general import tm, Wrench
         self.tm, self.Wrench = tm, Wrench
-        self.geo, self.bits, self.seed = geo, bits, seed
+        self.geo, self.bits, self.seed, self.start = geo, bits, seed, start
         self.switches = [int(c) for c in bits]
         sp = build(geo)
         ref = read_ref(sp)
         self.h = float(sps.rel(*poses(sp))[2, 3])                         # neutral height, from the fresh platform
         self.lmin, self.lmax = ref.leg_min, ref.leg_max
-        self.targets = dict(IK_TARGETS)
+        self.targets = {}
+        for k, v in IK_TARGETS:
+            w = np.array(v, float)
+            w[:3] *= self.h
+            self.targets[k] = taa_T(w)
+        self.targets.update(edge_targets(ref, self.h))
         self.moves = {"B": MOVE_B, "I": (0.0,) * 6}
         if seed:
             rng = np.random.default_rng(7000 + seed)
             # ONE generic in-workspace target and ONE generic base pose
-            self.targets["seed"] = tuple(np.concatenate([rng.uniform(-0.08, 0.08, 2), rng.uniform(1.0, 1.12, 1),
-                                                         rng.uniform(-0.12, 0.12, 3)]).tolist())
+            w = np.concatenate([rng.uniform(-0.08, 0.08, 2) * self.h, rng.uniform(1.0, 1.12, 1) * self.h,
+                                rng.uniform(-0.12, 0.12, 3)])
+            self.targets["seed"] = taa_T(w)
             self.moves["seed"] = tuple(np.concatenate([rng.uniform(-2, 2, 3), rng.uniform(-0.6, 0.6, 3)]).tolist())
         self._check_palette(ref)
         ops = []
@@ -185,21 +230,22 @@ class Spec:
     # the palette must sit where its names say (harness assertion: a vacuous palette is a harness error, not silence)
     def _check_palette(self, ref):
         B = np.eye(4)
-        c = {k: ref.constraints(B, self._rel_T(k)) for k in self.targets}
-        L = {k: ref.lengths(B, self._rel_T(k)) for k in self.targets}
+        c = {k: ref.constraints(B, self.targets[k]) for k in self.targets}
+        L = {k: ref.lengths(B, self.targets[k]) for k in self.targets}
         ok = all(v[0] for v in c["in"].values())
         ok = ok and L["high"].min() > ref.leg_max and L["low"].max() < ref.leg_min
         ok = ok and not c["tilted"]["tilt"][0] and not c["below"]["above"][0]
         ok = ok and not c["side"]["legs"][0] and c["side"]["above"][0]
+        for k, name in (("legs_hi_edge", "legs"), ("legs_lo_edge", "legs"), ("tilt_edge", "tilt"),
+                        ("deflection_edge", "deflection"), ("above_edge", "above")):
+            ok = ok and not c[k][name][0] and abs(c[k][name][1] - EDGE[k]) < 1e-6
         if "seed" in c:
             ok = ok and all(v[0] for v in c["seed"].values())
         if not ok:
             raise AssertionError("C10 palette of %s does not sit on the intended sides of the limits: %r" % (self.geo, c))
 
     def _rel_T(self, k):
-        v = np.array(self.targets[k], float)
-        v[:3] *= self.h
-        return taa_T(v)
+        return self.targets[k].copy()
 
     def _lens(self, k):
         f = np.array(dict(FK_LENS)[k], float)
@@ -208,8 +254,12 @@ class Spec:
     def initials(self):
         sp = build(self.geo)
         ref = read_ref(sp)
+        if self.start == "spun":        # non-initial start: the fresh platform re-spun once (that call itself is checked as
+            with quiet():               # the first operation of the histories that begin at the fresh platform)
+                sp.spinCustom(SPIN)
+            ref.spin(SPIN)
         sp.validation_settings = list(self.switches)
-        return [("%s|%s" % (self.geo, self.bits), PState(sp, ref))]
+        return [("%s|%s|%s" % (self.geo, self.bits, self.start), PState(sp, ref))]
 
     def state_key(self, st):
         r = st.ref
@@ -334,8 +384,8 @@ _SPECS = {}
 
 def get_spec(name):
     if name not in _SPECS:
-        geo, bits, seed = name.split("|")
-        _SPECS[name] = Spec(geo, bits, int(seed))
+        geo, bits, seed, start = name.split("|")
+        _SPECS[name] = Spec(geo, bits, int(seed), start)
     return _SPECS[name]
 
 
@@ -345,37 +395,51 @@ def run(ctx):
     subsets = ALL_SUBSETS if thorough else QUICK_SUBSETS
     ctx.level = "model_checking"
     if ctx.deadline is None:            # wall-clock guard; a run that hits it reports the depth it completed, exhaustive: false
-        ctx.deadline = ctx.t0 + (800.0 if thorough else 240.0)
+        ctx.deadline = ctx.t0 + (800.0 if thorough else 900.0)
     # the quick subsets first, so a capped thorough run has at least finished them
     subsets = [b for b in QUICK_SUBSETS if b in subsets] + [b for b in subsets if b not in QUICK_SUBSETS]
-    results = []
+    # quick: depth 2 from the fresh platform and depth 2 from the re-spun one; thorough: depth 3 from the fresh platform
+    # (which contains every depth-2 history of the re-spun start, because spinCustom is in the alphabet)
+    starts = ["fresh"] if thorough else ["fresh", "spun"]
+    results, skipped = [], []
     with ctx.pool() as pool:
         for bits in subsets:
             for geo in GEOS:
-                name = "%s|%s|%d" % (geo, bits, ctx.seed)
-                results.append((name, explorer.explore(ctx, MOD, name, depth, pool, chunk=4,
-                                                       replay_cap=1500 if thorough else None)))
+                for start in starts:
+                    name = "%s|%s|%d|%s" % (geo, bits, ctx.seed, start)
+                    if ctx.deadline - time.time() < 45.0:       # not enough left to finish a level: say so, do not start it
+                        skipped.append(name)
+                        continue
+                    results.append((name, explorer.explore(ctx, MOD, name, depth, pool, chunk=4,
+                                                           replay_cap=600 if thorough else None)))
     cov = explorer.merge(results)
     cov["alphabet_size"] = results[0][1]["alphabet_size"]
     cov["geometries"] = list(GEOS)
     cov["switch_subsets"] = subsets
     cov["depth_requested"] = depth
-    cov["rule"] = ("BFS over histories of {IK x%d targets (in, too high, too low, tilted, below the base, far sideways%s), "
-                   "IK(protect) far sideways, FK x4 length vectors x2 fk_modes, reverse FK, move x%d, spinCustom(0.4), validate, "
-                   "validate(donothing), inverseJacobian, staticForces, carryMassCalc, randomPos x2 scripts} per (geometry, "
-                   "switch subset); coherence, honesty of 'valid' and purity of queries checked after every call"
-                   % (len(get_spec(results[0][0]).targets), ", seed-generic" if ctx.seed else "",
-                      len(get_spec(results[0][0]).moves)))
-    cov["capped_by_wall_clock"] = bool(ctx.timed_out()) or not cov["exhaustive"]
+    cov["starts"] = starts
+    sp0 = get_spec(results[0][0])
+    cov["rule"] = ("BFS over histories of {IK x%d targets (in, too high, too low, tilted, below the base, far sideways, five targets "
+                   "just beyond one limit each%s), IK(protect) far sideways, FK x4 length vectors x2 fk_modes, reverse FK, "
+                   "move x%d, spinCustom(0.4), validate, validate(donothing), inverseJacobian, staticForces, carryMassCalc, "
+                   "randomPos x2 scripts} per (geometry, switch subset, start); coherence, honesty of 'valid' and purity of "
+                   "queries checked after every call" % (len(sp0.targets), ", one seed-generic" if ctx.seed else "", len(sp0.moves)))
+    cov["skipped_specs"] = skipped
+    if skipped:
+        cov["exhaustive"] = False
+    cov["capped_by_wall_clock"] = bool(skipped) or not cov["exhaustive"]
     ctx.coverage.update(cov)
     ctx.assumptions += [
         "plate-fixed joint coordinates and the neutral relative pose are read once from the fresh platform through the public "
         "getters; after spinCustom(a) the reference rotates them about the plate z axis by a (it never re-reads the library's tables)",
         "joint deflection = angle, in the joint's own plate frame, between the current leg and the neutral-pose leg; "
         "leg, above and deflection limits carry no margin in the library, tilt carries 1e-4; a slack of 1e-9*size covers rounding",
+        "relative-transform clause: the library computes it through six-vectors, whose exponential is the identity below 1e-6 rad "
+        "(C03's band); when the bottom pose, the top pose or their relative rotation has an angle in (0, 1e-6] that angle times "
+        "the lever |p_top - p_bottom| is added to the tolerance (zero otherwise)",
         "which pose FK converges to and what a corrective action does are environment answers: checked, never predicted",
         "randomPos runs with max_attempts=%d under a scripted np.random.uniform (2 scripts)" % RAND_ATTEMPTS,
-        "thorough tier: the from-scratch replay pass is capped at 1500 histories per (geometry, subset)" if thorough else
+        "thorough tier: the from-scratch replay pass is capped at 600 histories per (geometry, subset)" if thorough else
         "every distinct state's shortest history is replayed from scratch",
     ]
 
